@@ -35,4 +35,6 @@ func init() {
 		Rule: "a run is non-trivial iff validators were silent from the start, or a partition healed, or a validator restarted, before the network became synchronous; distinct = distinct ordered delivery sequences"})
 	register(&PropSpec{ID: "C15", Run: simpleRun(ClockScenario, func(s *Sim) { s.AddOracle(NewOracleC15(s)) }),
 		Rule: "a run is non-trivial iff some proposal was made while the proposer's clock was not ahead of the previous block's timestamp (skew or backward step); distinct = distinct ordered delivery sequences"})
+	register(&PropSpec{ID: "C16", Run: simpleRun(DynScenario, func(s *Sim) { s.AddOracle(NewOracleC16(s)); s.AddOracle(NewOracleC01(s)) }),
+		Rule: "a run is non-trivial iff the extension was on with maximum > minimum block time and some proposal with transactions was made strictly inside the extended wait (after minimum + tolerance, before maximum - tolerance), i.e. a transaction arrived during the extended wait and was proposed promptly; distinct = distinct ordered delivery sequences"})
 }
